@@ -68,6 +68,8 @@ pub fn exec(op: &str, a: &Value) -> Option<Value> {
         }, |v| Value::Array(v.iter().map(|x| int(*x)).collect())),
         "CZ.startOfDay" => run(|| zdt(a)?.start_of_day(), p_zdt),
         "CZ.toPlainDateTime" => run(|| zdt(a)?.to_plain_datetime(), p_datetime),
+        // the Display implementation of the convenience layer (a separate code path from to_ixdtf_string)
+        "CZ.display" => run(|| Ok(zdt(a)?.to_string()), |s| p_str(s)),
         "CZ.toString" => run(|| zdt(a)?.to_ixdtf_string(DisplayOffset::Auto, DisplayTimeZone::Auto, DisplayCalendar::Auto, ToStringRoundingOptions::default()), |s| p_str(s)),
         "CZ.add" => run(|| zdt(a)?.add(&arg_duration(&a["dur"])?, arg_ovf(a)), p_zdt),
         "CZ.subtract" => run(|| zdt(a)?.subtract(&arg_duration(&a["dur"])?, arg_ovf(a)), p_zdt),
